@@ -74,7 +74,7 @@ CHECKS = {
             'Same histories as C16 (every history mixes single sends, batches and administrative sends; file and memory persisters); read-back happens before every restart and at the end.',
             'Wire bytes are those read from the peer socket.', '3 C17'),
     'C18': ('session_sim', 'exploration', 'runtime monitor: the reply to each ResendRequest is walked against an independent model of the sent log (which numbers are stored application messages)',
-            'Random patterns of stored and unstored numbers, 8 kinds of request range (inside, to infinity, single, from 1, end/begin beyond the latest, whole; one or two requests), file/memory/no persister; '
+            'Random patterns of stored and unstored numbers, 8 kinds of request range (inside, to infinity, single, from 1, end/begin beyond the latest, whole; one or two requests, the last one in a quarter of the cases itself numbered ahead of sequence), file/memory/no persister; '
             'replays must be complete, ascending, PossDup with OrigSendingTime = original SendingTime and identical bodies; gap fills must carry the first number of their gap and skip nothing stored.',
             'NewSeqNo may extend over numbers without a stored message; numbers above the latest sent need no cover.', '3 C18'),
     'C19': ('session_sim', 'exploration', 'runtime monitor: independent receive-side model (expected number advances only on an in-sequence message or a SequenceReset) over recorded inbound histories, deliveries and outbound reactions',
@@ -83,13 +83,13 @@ CHECKS = {
             '(ResendRequest from the expected number, Logout + termination, Reject) must be on the wire.',
             'Delivery = the router callback ran. One-directional where the statement is; whether a rejected message consumes its number follows the session.', '3 C19'),
     'C20': ('session_sim', 'exploration', 'closed-loop runtime monitor: an executable reference model of a conformant counterparty answers the real session; bounded-progress verdict at wire idle',
-            'Plans of 3..30 counterparty messages with up to 3 loss windows and up to 2 disconnects (counterparty keeps numbering; reconnect Logon above the expected number), acceptor/initiator, '
+            'Plans of 3..30 counterparty messages with up to 3 loss windows and up to 2 disconnects (counterparty keeps numbering; reconnect Logon above the expected number), answers to resend requests deferred while the counterparty goes on sending, resend requests of the counterparty\'s own (the same range is then replayed twice), acceptor/initiator, '
             'file/memory persister; verdict: no sequence-related Logout/Reject/termination, every application id delivered at least once, expected number == counterparty next, state continuous.',
             'Liveness restated as bounded progress (at most 6x(messages+gaps)+40 exchanges until the wire is idle).', '3 C20'),
-    'C21': ('two_sessions', 'exploration', 'runtime monitor: offline checker over the delivery logs of two real sessions (real threads, loopback TCP, file persisters) driven through seeded schedules of sends, connection drops and restarts',
+    'C21': ('two_sessions', 'exploration', 'runtime monitor: offline checker over the delivery logs of two real sessions (real threads, loopback TCP, file persisters) driven through seeded schedules of sends, connection drops, partitions (forwarding thread swallowing both directions) and restarts, with sends continuing during recovery',
             'Dozens of schedules per quick run (1500 in thorough) with up to 25 steps and on average 5 faults each, faults hitting traffic in flight, sends into dead connections; at-least-once delivery, first-delivery order, '
-            'PossDup on re-delivery and re-establishment after every reconnect are decided at logical quiescent points.',
-            'Liveness is judged at quiescence with a 20 s watchdog (inconclusive); both sides are rebuilt after every fault; timers stopped with a heartbeat nudge.', '3 C21'),
+            'PossDup on re-delivery and re-establishment after every reconnect are decided at logical quiescent points; established sessions that do not agree after 25 numbered heartbeat exchanges are reported as stuck.',
+            'Liveness is judged at quiescence with a 60 s watchdog (inconclusive); both sides are rebuilt after every fault; timers stopped with a heartbeat nudge.', '3 C21'),
     'C22': ('session_sim', 'exploration', 'runtime monitor on a virtual clock: timeline model of last-sent/last-received instants decides every supervision tick and every inbound test request',
             'Timelines of up to 80 events with advances placed at H-1ms, H, H+1ms, 1.2H, 1.2H+1ms, floor(1.2H)+1 s for H in {1,2,5,7,10,30,60}; Heartbeat when due, TestRequest not early and not late, '
             'Logout only after a further period, TestReqID echoed, answering Heartbeat restores continuous. One recorded finding (Logout at the tick after the TestRequest; pinned by the repository\'s own test).',
@@ -102,9 +102,9 @@ CHECKS = {
             'Hundreds of schedules per run (daily, weekly, weekly wrapping the week end, weekly on a single weekday incl. the configuration default), built directly and from XML, utc offsets -720..+840, both initial '
             'states, ~45 000 check instants each; decode_dow exhaustively over a 100-byte alphabet (about one million strings).',
             'clock_gettime(CLOCK_REALTIME) interposed in the harness; what follows the unique day prefix is not examined.', '3 C24'),
-    'C25': ('conc_send', 'exploration', 'ThreadSanitizer build (with hook H1) + runtime oracle over the bytes read from the peer socket and the persister read-back, under 2..8 concurrent sender threads',
+    'C25': ('conc_send', 'exploration', 'ThreadSanitizer build (with hook H1) + runtime oracle over the bytes read from the peer socket and the persister read-back, under 2..8 concurrent sender threads, with resend requests served by the receiving thread while they send',
             'Hundreds of runs (pm_thread/pm_pipeline x file/memory persister, send and send_batch mixed, seeded yields) with 40..1600 messages each: the wire stream must split into whole messages numbered consecutively in wire order, '
-            'each id once, store == wire; TSan reports outside the ff:: suppression are violations; the same workload also runs under ASan.',
+            'each id once, store == wire; in 45% of the runs the peer asks for resends meanwhile: every number certainly stored when it asked must come back as a PossDup copy of what was transmitted, ascending, never gap-filled; TSan reports outside the ff:: suppression are violations; the same workload also runs under ASan+UBSan.',
             'Only interleavings that occurred are judged; FastFlow internals are trusted (suppression race:^ff::) and tested functionally by C30.', '3 C25'),
     'C26': ('persist_model', 'exploration', 'model-based history checking: every API return of MemoryPersister/FilePersister vs a std::map + control-pair model, under ASan+UBSan',
             'Thousands of random histories (up to 120 operations, small key spaces so that collisions, refusals and empty ranges are frequent, reopen for the file store) '
@@ -122,11 +122,11 @@ CHECKS = {
             'Every rotation entry point (FileLogger ctor, rotate(force) on append logs, second rotation, FilePersister purge with index files) is run on directories with generated '
             'generation sets and bystander files; contents identify the original file so shifts are checked exactly; counts above the 1024 cap are included.',
             'Where name.(k-1) did not exist the statement is silent about name.k.', '3 C29'),
-    'C30': ('queue_mon', 'exploration', 'runtime monitor with hook H2: exact ticket oracle over recorded push/pop events, under real-thread stress and under controlled schedules (seeded random and depth-first enumeration with a pre-emption bound) of the real queue code',
+    'C30': ('queue_mon', 'exploration', 'runtime monitor with hooks H2 and H3: exact ticket oracle over recorded push/pop events, under real-thread stress and under controlled schedules (seeded random and depth-first enumeration with a pre-emption bound) of the real queue code',
             'Half a million elements through 1..8 x 1..8 real threads with injected delays, plus about ten thousand distinct controlled schedules per quick run (far more in thorough, incl. pre-emption bound 3) in which every thread parks '
-            'at every point between the atomic steps of push and pop; ticket equality, exactly-once, producer order and the empty-return rule are decided exactly from the hook events.',
+            'at every point between the atomic steps of push and pop (and, for queues built from tiny segments, after every inner buffer operation of segment switching and recycling); ticket equality, exactly-once, producer order and the empty-return rule are decided exactly from the hook events.',
             'Hook granularity, x86-64 TSO; not all interleavings: enumeration is bounded by pre-emptions and budget (evidence says which plans completed).', '3 C30'),
-    'C31': ('timer_mon', 'exploration', 'runtime monitor on real Timer threads: lower-bound oracle on callback entry instants (same clock as the Timer), due-order by a global atomic ticket, repeat counts, silence after clear()',
+    'C31': ('timer_mon', 'exploration', 'runtime monitor on real Timer threads: lower-bound oracle on callback entry instants (same clock as the Timer), due-order by a global atomic ticket, repeat counts, spacing of repeats (with slack, reproduced 3 of 3), silence after clear()',
             'Hundreds of timers per run with 1..3 rounds of events (delays 1..200 ms, repeats, callbacks returning false, slow callbacks), clear() at random moments and re-scheduling afterwards.',
             'Only lower bounds and order are asserted, never lateness.', '3 C31'),
     'C32': ('xml_tree', 'exploration', 'generator tree as reference vs parsed XmlElement tree (tags, decoded attributes, text, child order, path lookups); mutated/random bytes under ASan+UBSan',
@@ -177,14 +177,14 @@ def main():
              'kind_free_text': 'one real Session on a real connection (pm_coro, loopback TCP, virtual clock, timer thread stopped) driven interactively; python FIX session models in checks/session.py'},
             {'name': 'sched_mon', 'path': 'harness/sched_mon.cpp', 'serves_properties': ['C24'], 'kind_free_text': 'Schedule::test on a virtual clock vs window membership; decode_dow vs reference decoder'},
             {'name': 'reader_frame', 'path': 'harness/reader_frame.cpp', 'serves_properties': ['C15'], 'kind_free_text': 'real connection reader vs generated streams and chunkings'},
-            {'name': 'conc_send', 'path': 'harness/conc_send.cpp', 'serves_properties': ['C25'], 'kind_free_text': 'concurrent senders, wire reader, store read-back; tsan and asan flavours'},
+            {'name': 'conc_send', 'path': 'harness/conc_send.cpp', 'serves_properties': ['C25'], 'kind_free_text': 'concurrent senders, wire reader that also issues resend requests, store read-back, replay oracle; tsan and asan flavours'},
             {'name': 'f8c_pipeline', 'path': 'checks/f8c.py', 'serves_properties': ['C13', 'C14'], 'kind_free_text': 'pylib/schemagen.py + tools/build.py build_gen + harness/meta_dump.cpp + codec_exec compiled against the generated schema'},
-            {'name': 'two_sessions', 'path': 'harness/two_sessions.cpp', 'serves_properties': ['C21'], 'kind_free_text': 'initiator + acceptor in one process, fault schedules, delivery-log checker'},
+            {'name': 'two_sessions', 'path': 'harness/two_sessions.cpp', 'serves_properties': ['C21'], 'kind_free_text': 'initiator + acceptor in one process behind a forwarding thread, fault schedules incl. partitions, delivery-log checker'},
             {'name': 'persist_model', 'path': 'harness/persist_model.cpp', 'serves_properties': ['C26'], 'kind_free_text': 'random API histories vs map model'},
             {'name': 'persist_crash', 'path': 'harness/persist_crash.cpp', 'serves_properties': ['C27'], 'kind_free_text': 'fork + write/lseek countdown crash injection, reopen oracle'},
             {'name': 'logger_stress', 'path': 'harness/logger_stress.cpp', 'serves_properties': ['C28'], 'kind_free_text': 'producer threads + offline exactly-once/order checker'},
             {'name': 'rotate_fs', 'path': 'harness/rotate_fs.cpp', 'serves_properties': ['C29'], 'kind_free_text': 'rotation vs directory snapshots'},
-            {'name': 'queue_mon', 'path': 'harness/queue_mon.cpp', 'serves_properties': ['C30'], 'kind_free_text': 'stress + cooperative scheduler over hook H2, ticket oracle'},
+            {'name': 'queue_mon', 'path': 'harness/queue_mon.cpp', 'serves_properties': ['C30'], 'kind_free_text': 'stress + cooperative scheduler over hooks H2/H3, ticket oracle'},
             {'name': 'timer_mon', 'path': 'harness/timer_mon.cpp', 'serves_properties': ['C31'], 'kind_free_text': 'real timers, lower-bound/order/clear oracle'},
             {'name': 'xml_tree', 'path': 'harness/xml_tree.cpp', 'serves_properties': ['C32'], 'kind_free_text': 'tree generator/serialiser, structural comparison, byte mutation'},
         ],
